@@ -53,14 +53,14 @@ template <class TStored, class TReq> static inline int prop_key(const unsigned c
 #define K(name, S, R) VH_EXPORT int vp_h03k_##name(const unsigned char* in, unsigned char* out) { return prop_key<S, R>(in, out); }
 K(u_i8, uint64_t, int8_t) K(u_i32, uint64_t, int32_t) K(u_i64, uint64_t, int64_t) K(u_u16, uint64_t, uint16_t) K(u_u64, uint64_t, uint64_t)
 K(s_i16, int64_t, int16_t) K(s_i64, int64_t, int64_t) K(s_u32, int64_t, uint32_t) K(s_u64, int64_t, uint64_t)
-//@ OBL {"name": "h03a_aba", "family": "h03a", "prop": "vp_h03a_aba", "in": 8, "out": 16, "unwind": 6, "fs": 32, "unwind_fn": {"SkipValueImpl": 1}, "recursion": {"SkipValueImpl": 0}, "cap_s": 3600, "bounds": "document {a:va,b:vb}+sentinel, values uint8 with symbolic payload; request sequence a-b-a (z = absent key)", "desc": "object scope: out-of-order / repeated / absent requests return the stored value or not-loaded with the target unchanged; unread rest skipped; sentinel intact", "tier": "thorough"}
-//@ OBL {"name": "h03a_baz", "family": "h03a", "prop": "vp_h03a_baz", "in": 8, "out": 16, "unwind": 6, "fs": 32, "unwind_fn": {"SkipValueImpl": 1}, "recursion": {"SkipValueImpl": 0}, "cap_s": 3600, "bounds": "document {a:va,b:vb}+sentinel, values uint8 with symbolic payload; request sequence b-a-z (z = absent key)", "desc": "object scope: out-of-order / repeated / absent requests return the stored value or not-loaded with the target unchanged; unread rest skipped; sentinel intact", "tier": "thorough"}
-//@ OBL {"name": "h03a_zab", "family": "h03a", "prop": "vp_h03a_zab", "in": 8, "out": 16, "unwind": 6, "fs": 32, "unwind_fn": {"SkipValueImpl": 1}, "recursion": {"SkipValueImpl": 0}, "cap_s": 3600, "bounds": "document {a:va,b:vb}+sentinel, values uint8 with symbolic payload; request sequence z-a-b (z = absent key)", "desc": "object scope: out-of-order / repeated / absent requests return the stored value or not-loaded with the target unchanged; unread rest skipped; sentinel intact", "tier": "thorough"}
-//@ OBL {"name": "h03a_bba", "family": "h03a", "prop": "vp_h03a_bba", "in": 8, "out": 16, "unwind": 6, "fs": 32, "unwind_fn": {"SkipValueImpl": 1}, "recursion": {"SkipValueImpl": 0}, "cap_s": 3600, "bounds": "document {a:va,b:vb}+sentinel, values uint8 with symbolic payload; request sequence b-b-a (z = absent key)", "desc": "object scope: out-of-order / repeated / absent requests return the stored value or not-loaded with the target unchanged; unread rest skipped; sentinel intact", "tier": "thorough"}
-//@ OBL {"name": "h03a_azb", "family": "h03a", "prop": "vp_h03a_azb", "in": 8, "out": 16, "unwind": 6, "fs": 32, "unwind_fn": {"SkipValueImpl": 1}, "recursion": {"SkipValueImpl": 0}, "cap_s": 3600, "bounds": "document {a:va,b:vb}+sentinel, values uint8 with symbolic payload; request sequence a-z-b (z = absent key)", "desc": "object scope: out-of-order / repeated / absent requests return the stored value or not-loaded with the target unchanged; unread rest skipped; sentinel intact", "tier": "thorough"}
-//@ OBL {"name": "h03a_zzz", "family": "h03a", "prop": "vp_h03a_zzz", "in": 8, "out": 16, "unwind": 6, "fs": 32, "unwind_fn": {"SkipValueImpl": 1}, "recursion": {"SkipValueImpl": 0}, "cap_s": 3600, "bounds": "document {a:va,b:vb}+sentinel, values uint8 with symbolic payload; request sequence z-z-z (z = absent key)", "desc": "object scope: out-of-order / repeated / absent requests return the stored value or not-loaded with the target unchanged; unread rest skipped; sentinel intact", "tier": "thorough"}
-//@ OBL {"name": "h03a_abz", "family": "h03a", "prop": "vp_h03a_abz", "in": 8, "out": 16, "unwind": 6, "fs": 32, "unwind_fn": {"SkipValueImpl": 1}, "recursion": {"SkipValueImpl": 0}, "cap_s": 3600, "bounds": "document {a:va,b:vb}+sentinel, values uint8 with symbolic payload; request sequence a-b-z (z = absent key)", "desc": "object scope: out-of-order / repeated / absent requests return the stored value or not-loaded with the target unchanged; unread rest skipped; sentinel intact", "tier": "thorough"}
-//@ OBL {"name": "h03a_aaa", "family": "h03a", "prop": "vp_h03a_aaa", "in": 8, "out": 16, "unwind": 6, "fs": 32, "unwind_fn": {"SkipValueImpl": 1}, "recursion": {"SkipValueImpl": 0}, "cap_s": 3600, "bounds": "document {a:va,b:vb}+sentinel, values uint8 with symbolic payload; request sequence a-a-a (z = absent key)", "desc": "object scope: out-of-order / repeated / absent requests return the stored value or not-loaded with the target unchanged; unread rest skipped; sentinel intact", "tier": "thorough"}
+//@ OBL {"name": "h03a_aba", "family": "h03a", "prop": "vp_h03a_aba", "in": 8, "out": 16, "unwind": 6, "fs": 32, "unwind_fn": {"SkipValueImpl": 1}, "recursion": {"SkipValueImpl": 0}, "cap_s": 3600, "bounds": "document {a:va,b:vb}+sentinel, values uint8 with symbolic payload; request sequence a-b-a (z = absent key)", "desc": "object scope: out-of-order / repeated / absent requests return the stored value or not-loaded with the target unchanged; unread rest skipped; sentinel intact", "tier": "open"}
+//@ OBL {"name": "h03a_baz", "family": "h03a", "prop": "vp_h03a_baz", "in": 8, "out": 16, "unwind": 6, "fs": 32, "unwind_fn": {"SkipValueImpl": 1}, "recursion": {"SkipValueImpl": 0}, "cap_s": 3600, "bounds": "document {a:va,b:vb}+sentinel, values uint8 with symbolic payload; request sequence b-a-z (z = absent key)", "desc": "object scope: out-of-order / repeated / absent requests return the stored value or not-loaded with the target unchanged; unread rest skipped; sentinel intact", "tier": "open"}
+//@ OBL {"name": "h03a_zab", "family": "h03a", "prop": "vp_h03a_zab", "in": 8, "out": 16, "unwind": 6, "fs": 32, "unwind_fn": {"SkipValueImpl": 1}, "recursion": {"SkipValueImpl": 0}, "cap_s": 3600, "bounds": "document {a:va,b:vb}+sentinel, values uint8 with symbolic payload; request sequence z-a-b (z = absent key)", "desc": "object scope: out-of-order / repeated / absent requests return the stored value or not-loaded with the target unchanged; unread rest skipped; sentinel intact", "tier": "open"}
+//@ OBL {"name": "h03a_bba", "family": "h03a", "prop": "vp_h03a_bba", "in": 8, "out": 16, "unwind": 6, "fs": 32, "unwind_fn": {"SkipValueImpl": 1}, "recursion": {"SkipValueImpl": 0}, "cap_s": 3600, "bounds": "document {a:va,b:vb}+sentinel, values uint8 with symbolic payload; request sequence b-b-a (z = absent key)", "desc": "object scope: out-of-order / repeated / absent requests return the stored value or not-loaded with the target unchanged; unread rest skipped; sentinel intact", "tier": "open"}
+//@ OBL {"name": "h03a_azb", "family": "h03a", "prop": "vp_h03a_azb", "in": 8, "out": 16, "unwind": 6, "fs": 32, "unwind_fn": {"SkipValueImpl": 1}, "recursion": {"SkipValueImpl": 0}, "cap_s": 3600, "bounds": "document {a:va,b:vb}+sentinel, values uint8 with symbolic payload; request sequence a-z-b (z = absent key)", "desc": "object scope: out-of-order / repeated / absent requests return the stored value or not-loaded with the target unchanged; unread rest skipped; sentinel intact", "tier": "open"}
+//@ OBL {"name": "h03a_zzz", "family": "h03a", "prop": "vp_h03a_zzz", "in": 8, "out": 16, "unwind": 6, "fs": 32, "unwind_fn": {"SkipValueImpl": 1}, "recursion": {"SkipValueImpl": 0}, "cap_s": 3600, "bounds": "document {a:va,b:vb}+sentinel, values uint8 with symbolic payload; request sequence z-z-z (z = absent key)", "desc": "object scope: out-of-order / repeated / absent requests return the stored value or not-loaded with the target unchanged; unread rest skipped; sentinel intact", "tier": "open"}
+//@ OBL {"name": "h03a_abz", "family": "h03a", "prop": "vp_h03a_abz", "in": 8, "out": 16, "unwind": 6, "fs": 32, "unwind_fn": {"SkipValueImpl": 1}, "recursion": {"SkipValueImpl": 0}, "cap_s": 3600, "bounds": "document {a:va,b:vb}+sentinel, values uint8 with symbolic payload; request sequence a-b-z (z = absent key)", "desc": "object scope: out-of-order / repeated / absent requests return the stored value or not-loaded with the target unchanged; unread rest skipped; sentinel intact", "tier": "open"}
+//@ OBL {"name": "h03a_aaa", "family": "h03a", "prop": "vp_h03a_aaa", "in": 8, "out": 16, "unwind": 6, "fs": 32, "unwind_fn": {"SkipValueImpl": 1}, "recursion": {"SkipValueImpl": 0}, "cap_s": 3600, "bounds": "document {a:va,b:vb}+sentinel, values uint8 with symbolic payload; request sequence a-a-a (z = absent key)", "desc": "object scope: out-of-order / repeated / absent requests return the stored value or not-loaded with the target unchanged; unread rest skipped; sentinel intact", "tier": "open"}
 //@ OBL {"name": "h03k_u_i8", "family": "h03k", "prop": "vp_h03k_u_i8", "in": 16, "out": 8, "unwind": 2, "bounds": "every stored uint64 key, every requested int8", "desc": "CVariableKey: stored unsigned vs requested signed key"}
 //@ OBL {"name": "h03k_u_i32", "family": "h03k", "prop": "vp_h03k_u_i32", "in": 16, "out": 8, "unwind": 2, "bounds": "every uint64 x int32", "desc": "CVariableKey: stored unsigned vs requested int32"}
 //@ OBL {"name": "h03k_u_i64", "family": "h03k", "prop": "vp_h03k_u_i64", "in": 16, "out": 8, "unwind": 2, "bounds": "every uint64 x int64", "desc": "CVariableKey: stored unsigned vs requested int64"}
